@@ -3429,6 +3429,23 @@ theorem seg_clear_spec {H : Hashes} {m : SegMap V} (inv : SegInv H m) :
         have h0 : (default : UMap V).data.size = 0 := rfl
         omega
 
+/-- at every state an interleaving can reach, a lookup returns the abstract map of that state -/
+theorem ireach_get_exact {H : Hashes} (hH : HashOk H) {m0 : SegMap V} (inv0 : SegInv H m0) (threads : Nat)
+    {st : CSt V} (h : IReach H ⟨m0, List.replicate threads 0⟩ st) (k : Nat) :
+    st.m.get H k = sabs H st.m k ∧ st.m.has H k = (sabs H st.m k).isSome := by
+  have i0 : IInv H (⟨m0, List.replicate threads 0⟩ : CSt V) := by
+    refine ⟨?_, ?_⟩
+    · show SegInv H { m0 with count := total m0 }
+      rw [← inv0.count]; exact inv0
+    · show m0.count = total m0 + (List.replicate threads (0 : Int)).sum
+      rw [inv0.count]
+      have : (List.replicate threads (0 : Int)).sum = 0 := by
+        apply sum_all_zero; intro t; simp [List.getD_eq_getElem?_getD, List.getElem?_replicate]; split <;> rfl
+      omega
+  have inv := (ireach_inv hH i0 h).struct
+  have hi := segOf_lt hH inv k
+  exact ⟨get_eq_abs hH.idx (inv.segs _ hi) k, has_eq_abs hH.idx (inv.segs _ hi) k⟩
+
 /-! ### the real mixers are admissible instances -/
 
 theorem realIdx_ok : IdxOk realIdx := fun n _ hn => Nat.mod_lt _ hn
